@@ -251,6 +251,9 @@ RAW_WITNESS = [
     {"sidecar": {"e": {"HED": {"off": "(Delay/# s, Def/A, Offset)", "on": "(Def/A, Onset, (Red))", "in": "(Def/A, Inset)"}},
                  "d": {"HED": "(Delay/# ms, (Label/x, {e}))"}},
      "header": ["e", "onset", "d"], "rows": [["in", "3.5", "500"], ["on", "1.0", "n/a"], ["in", "3.0", "250"]]},
+    {"sidecar": {"defs": {"HED": {"d1": "(Definition/Mk/#, (Label/#))", "d2": "(Definition/A, (Green))"}},
+                 "e": {"HED": {"go": "Def/Mk/3", "no": "Def/Mk", "ex": "(Def-expand/A, (Red))"}}},
+     "header": ["e", "HED"], "rows": [["go", "Def/Mk/x1"], ["no", "(Def-expand/A, (Green))"], ["ex", "Def/Nope"]]},
     {"sidecar": {"v": {"HED": "(Delay/# s, (Blue, Blue)), (Delay/2 s, (Red))"}},
      "header": ["onset", "v", "HED"], "rows": [["1.0", "1", "Green"], ["0.5", "0.5", "n/a"]]},
 ]
@@ -295,6 +298,21 @@ def gen_pair(rng, g):
                 for i, key in enumerate(h):
                     if i == 0 or rng.random() < 0.5:
                         h[key] = form % {"t": t, "s": rng.choice(["Circle", "Triangle", "(Circle, Triangle)", "Cross"])}
+    declares = rng.random() < 0.3          # the sidecar declares definitions; entries and cells use them (rightly and wrongly)
+    if declares:
+        from harness.props import closed_c08
+        dcol = {"HED": {k: closed_c08.def_entry(rng) for k in rng.sample(["d1", "d2", "d3"], rng.randint(1, 3))}}
+        items = list(sc.items())
+        items.insert(rng.randint(0, len(items)), ("defs", dcol))
+        sc = dict(items)
+        kinds["defs"] = "categorical"
+        for n in names:
+            if kinds[n] == "categorical":
+                for key in list(sc[n]["HED"]):
+                    if rng.random() < 0.4:
+                        sc[n]["HED"][key] = rng.choice(closed_c08.DEF_USERS)
+        if rng.random() < 0.35:
+            names = names + ["defs"]           # the definition column is (wrongly) a column of the file as well
     header = [n for n in names if rng.random() < 0.93]
     if has_hed:
         header.append("HED")
@@ -317,7 +335,11 @@ def gen_pair(rng, g):
                 row.append("n/a" if u < 0.06 else str(onsets[r] / 8) if u < 0.8 else str(onsets[r] * 8 // 8 if onsets[r] % 8 == 0
                                                                                          else onsets[r] / 8))
             elif c == "HED":
-                row.append(frag() if u < 0.6 else rng.choice(["n/a", ""]))
+                if declares and u < 0.3:
+                    from harness.props import closed_c08
+                    row.append(rng.choice(closed_c08.DEF_USERS))
+                else:
+                    row.append(frag() if u < 0.6 else rng.choice(["n/a", ""]))
             elif kinds.get(c) == "categorical":
                 row.append(rng.choice(list(sc[c]["HED"])) if u < 0.7 else rng.choice(["n/a", "", "zz", "N/A"]))
             elif kinds.get(c) == "value":
@@ -385,6 +407,9 @@ def run_closed_raw(ctx, su, pairs=None):
         from harness.props.c08 import _walk_strings
         refs = any("{" in x for x in _walk_strings(pair["sidecar"]))
         ctx.count("closed-raw:compared" + ("-onset" if has_onset else ""))
+        if "definition/" in json.dumps(pair["sidecar"]).casefold():
+            ctx.count("closed-raw:compared-sidecar-declares-definitions")
+            ctx.count("closed-raw:definitions-accepted", len(m.get("defs", [])))
         if "delay/" in json.dumps(pair).casefold():
             ctx.count("closed-raw:compared-with-Delay" + ("-onset" if has_onset else ""))
         if m.get("split"):
